@@ -79,8 +79,9 @@ type State struct {
 }
 
 type pendingGhost struct {
-	fun  Term
-	unit *UnitInfo
+	fun    Term
+	unit   *UnitInfo
+	clause *Clause
 }
 
 func (s *State) clone() *State {
